@@ -56,7 +56,7 @@
 //!   `[kind, number, txid8, n_htlc_sigs, n_nondust]`.
 //! * further adv kinds: cs_drop_htlc_sigs / cs_empty_htlc_sigs / cs_extra_htlc_sig /
 //!   cs_swap_htlc_sigs / cs_corrupt_htlc_sig (a cs carrying HTLC signatures is corrupted with
-//!   probability 1/3, nh in the args is the count AS DELIVERED); ready_dup_same / ready_dup_diff
+//!   probability 1/2, nh in the args is the count AS DELIVERED); ready_dup_same / ready_dup_diff
 //!   (injected channel_ready, `deliver` step without matching `sent`); raa_subst (after an accepted
 //!   ready_dup_diff, the sender's next RAA carries the secret of the substituted point). Messages
 //!   are only corrupted while the receiver still has the channel.
@@ -87,7 +87,7 @@
 //!   ends (counting the mon_broadcast step itself). While a hold is active only deliver (ordinary and
 //!   injected), mon_complete, force_close of the held node and process_events happen; in particular
 //!   no disconnect (a forced one is postponed until after the release), reconnect or reload.
-//! * FOCUSED scenarios (2/3 of those with flag adv; `"focus":"<state>:<kind>"` in the R line, null
+//! * FOCUSED scenarios (1/2 of those with flag adv; `"focus":"<state>:<kind>"` in the R line, null
 //!   otherwise) aim ONE injected message of the given kind at ONE receiver state: 0 = not awaiting a
 //!   revocation, monitor update in progress; 1 = awaiting one, monitor update in progress with our
 //!   commitment_signed still pending on it; 2 = our stfu sent; 3 = quiescent; 4 = manager held after
@@ -97,7 +97,7 @@
 //!   nothing else is injected or corrupted, the scheduler steers towards the state (asynchronous
 //!   persistence kept on, stfu proposed, monitor-API broadcast, payments only started from rest for
 //!   the not-awaiting states) and the injection has weight 600 as soon as some node is in the state
-//!   and the message can be built; for the next 30 steps nothing else is injected or corrupted, then
+//!   and the message can be built; for the next 20 steps nothing else is injected or corrupted, then
 //!   the scenario goes on as an ordinary one.
 //! * stderr additionally has `held_deliveries` (deliver steps whose receiver was held) and
 //!   `release_while_locked` (`release` log entries of a node at or after a step in which that node
@@ -1205,7 +1205,7 @@ impl World {
 		let corruptible = matches!(qm.w, Wire::RAA(_) | Wire::CS(_) | Wire::Reest(_));
 		// a commitment_signed carrying HTLC signatures is corrupted more often
 		let one_in = match &qm.w {
-			Wire::CS(m) if !m.htlc_signatures.is_empty() => 3,
+			Wire::CS(m) if !m.htlc_signatures.is_empty() => 2,
 			_ => 12,
 		};
 		let armed_subst = match (&qm.w, self.subst[n]) {
@@ -1734,7 +1734,7 @@ fn run_scenario(seed: u64, k: u64, max_steps: u64, flags: &Flags, rec: &Rc<RefCe
 	// 3 = quiescent; 4 = manager held back after a monitor-API broadcast; 5 = reconnected, no
 	// channel_reestablish yet; 6 = idle; 7 = awaiting, no monitor update.
 	let mut focus: Option<(u64, usize)> = None;
-	if flags.adv && rng.below(3) != 0 {
+	if flags.adv && rng.below(2) == 0 {
 		// the states that need steering and the unsolicited / early revoke_and_ack get most of the mass
 		let mut st = [0u64, 0, 0, 0, 1, 1, 1, 2, 3, 4, 4, 4, 5, 6, 7][rng.below(15) as usize];
 		let kind = [0usize, 0, 0, 0, 1, 2, 3, 4, 4][rng.below(9) as usize];
@@ -1869,15 +1869,19 @@ fn run_scenario(seed: u64, k: u64, max_steps: u64, flags: &Flags, rec: &Rc<RefCe
 			if w.held_fs.is_some() && w.connected && open[0] {
 				en.push((6, Act::BatchComplete));
 			}
-			// (a focused scenario injects no channel_ready before its one message)
-			if flags.adv && w.connected && focus.is_none() && step >= quiet_until {
+			// (before its one message a focused scenario only re-sends the SAME channel_ready during the
+			// handshake: a different point closes the channel)
+			if flags.adv && w.connected && step >= quiet_until {
 				for n in 0..2 {
 					if !open[n] {
 						continue;
 					}
 					if hs && hs_dup_on && w.last_ready[1 - n].is_some() {
 						en.push((4, Act::ReadyDup(n, false)));
-						en.push((2, Act::ReadyDup(n, true)));
+						if focus.is_none() {
+							en.push((2, Act::ReadyDup(n, true)));
+						}
+					} else if focus.is_some() {
 					} else if !hs && late_dup_on && step >= adv_start {
 						en.push((1, Act::ReadyDup(n, false)));
 						en.push((1, Act::ReadyDup(n, true)));
@@ -2037,7 +2041,7 @@ fn run_scenario(seed: u64, k: u64, max_steps: u64, flags: &Flags, rec: &Rc<RefCe
 				Some((m, reported)) => {
 					if focus.is_some() {
 						focus = None;
-						quiet_until = step + 30;
+						quiet_until = step + 20;
 					}
 					w.deliver_injected(n, m, reported, rec, &hdr);
 					let p = rec.borrow().pending.clone().unwrap();
